@@ -368,7 +368,7 @@ def scen_reuse(g, name, typ):
     r = g.r
     if typ not in ("FUB", "FU", "MB", "MU", "FOB", "FO"):
         typ = r.choice(["FUB", "FU", "FOB", "FO", "MU"])
-    cap = r.choice([2, 3, 4, 6])
+    cap = r.choice([2, 3, 4, 6, 8, 12])
     L = ["hist " + name]
     src = typ in ("MB", "MU")
     fin = ":E" if src else ":R"
@@ -398,8 +398,13 @@ def scen_reuse(g, name, typ):
             h = r.randrange(nh + cap)
             L.append("env %s%d" % (r.choice(["w", "W", "W", "k"]), h))
         L.append("poll %d" % r.choice([1, 2]))
-    # a quiet tail: nobody wakes anything any more, the collection must go to sleep
-    for _ in range(r.choice([0, 6, 10])):
+    # a burst of (mostly stale) wakes, then a quiet tail: nobody wakes anything any more, the
+    # collection must go to sleep within (held + 2) polls
+    if r.random() < 0.6:
+        hs = list(range(nh + cap)); r.shuffle(hs)
+        for h in hs[:r.choice([3, 6, 12, 24])]:
+            L.append("env w%d" % h)
+    for _ in range(r.choice([0, 6, 10, 14])):
         L.append("poll 1")
     L.append("dropcoll")
     for _ in range(r.choice([0, 2, 5])):
